@@ -39,7 +39,12 @@ def _elementwise(fn, a, *rest):
     arr = np.asarray(a, dtype=object)
     if arr.shape == ():
         args = [np.asarray(r, dtype=object).item() if np.ndim(r) == 0 else r for r in rest]
-        return fn(arr.item(), *args)
+        r = fn(arr.item(), *args)
+        if isinstance(r, float):
+            return np.float64(r)      # numpy returns numpy scalars (callers use .ndim, .shape)
+        if isinstance(r, bool):
+            return np.bool_(r)
+        return r
     bro = np.broadcast_arrays(arr, *[np.asarray(r, dtype=object) for r in rest])
     out = np.empty(bro[0].shape, dtype=object)
     for idx in np.ndindex(bro[0].shape):
